@@ -993,10 +993,11 @@ func (g *G) genStmt() E {
 			g.f("stmt:assign-str")
 			if g.r.Bool() && !v.Clean {
 				v.Used = true
-				s.pc(fmt.Sprintf("%s += %s\n", v.Name, e.p), fmt.Sprintf("%s += %s\n", v.Name, e.c))
+				// (ck_str bounds the length: a string doubled in a loop exhausts memory on one side and the VM's item size on the other)
+				s.pc(fmt.Sprintf("%s += %s\n", v.Name, e.p), fmt.Sprintf("%s += %s\nck_str(len(%s))\n", v.Name, e.c, v.Name))
 			} else {
 				v.MinLen = 0
-				s.pc(fmt.Sprintf("%s = %s\n", v.Name, e.p), fmt.Sprintf("%s = %s\n", v.Name, e.c))
+				s.pc(fmt.Sprintf("%s = %s\n", v.Name, e.p), fmt.Sprintf("%s = %s\nck_str(len(%s))\n", v.Name, e.c, v.Name))
 			}
 			return s.E()
 		}
@@ -1171,6 +1172,9 @@ func (g *G) genDefine(t Ty) E {
 		s.pc(fmt.Sprintf("var %s %s = %s\n", name, t.src(), e.p), fmt.Sprintf("var %s %s = %s\n", name, t.src(), e.c))
 	} else {
 		s.pc(fmt.Sprintf("%s := %s\n", name, e.p), fmt.Sprintf("%s := %s\n", name, e.c))
+	}
+	if t.K == KStr {
+		s.pc("", fmt.Sprintf("ck_str(len(%s))\n", name))
 	}
 	g.declare(&Var{Name: name, Ty: t, MinLen: minLen, Fresh: fresh, Clean: clean})
 	return s.E()
